@@ -486,7 +486,7 @@ func TestC17Scripts(t *testing.T) {
 		runC17Script(t, r, &rc)
 		return
 	}
-	n := pick(400, 15000)
+	n := pick(1000, 15000)
 	for i := 0; i < n; i++ {
 		sc := genC17Script(rng.Fork(fmt.Sprint(i)))
 		if !mine(i) {
